@@ -146,9 +146,9 @@ def run_tlc(module, cfg, workers=None, timeout=900, env=None, dfs=False, extra=(
     m = re.search(r"Temporal properties were violated", out)
     if m and not res["violated"]:
         res["violated"] = "temporal"
-    m = re.search(r"Action property (\S+) is violated", out)
+    m = re.search(r"Action property (.*?) is violated", out)
     if m:
-        res["violated"] = m.group(1)
+        res["violated"] = "action property " + m.group(1)[:80]
     if rc not in (0, 12, 13) and not res["violated"]:
         if rc == 124:
             res["timeout"] = True
